@@ -498,6 +498,9 @@ func (t *tsT) directEffect(f *tsFunc) bool {
 					eff = true
 				}
 			}
+			if fo := tsCalledFunc(info, x); fo != nil && tspEffectCall(fo.FullName()) {
+				eff = true
+			}
 			if fo := tsCalledFunc(info, x); fo != nil && fo.FullName() == "fmt.Sprintf" && len(x.Args) > 0 {
 				if tv := info.Types[x.Args[0]]; tv.Value != nil && strings.Contains(tv.Value.ExactString(), "%q") {
 					eff = true
